@@ -20,7 +20,7 @@
 From Coq Require Import List NArith.
 From Dials Require Import Base.Outcome Reflect.Ty Reflect.Heap Copy.DeepCopy Copy.DeepCopySpec
   Stack.ComposeH Stack.ComposeHProofs Stack.History Stack.HistoryProofs Stack.ComposeHTyping Stack.ComposeHTotal
-  Stack.ComposeHFacts.
+  Stack.HistoryTotal Stack.ComposeHFacts.
 Import ListNotations.
 Open Scope N_scope.
 
@@ -96,9 +96,33 @@ Theorem versions_pairwise_disjoint : forall fuel fs h n0 defaults evs H N d vs,
   (forall a o, hget h a = Some o -> hget H a = Some o).
 Proof. exact versions_pairwise_disjoint_b. Qed.
 
+(* ... and the whole run returns.  For a replayed history (Config, then re-stacks
+   over values that already live in the heap; layerss = the source values in
+   force at every stacking) under the decidable guard c02_history_guard: the
+   entry copy returns, and with fuel for a heap of n1 = c_next st1 addresses
+   every compose of the run does, with all versions pairwise disjoint and
+   disjoint from every input.  (The guards of the pristine copy are re-derived:
+   Copy/DeepCopyGuard.v.) *)
+Theorem versions_total : forall fuel fs h n0 R D rk S0 defaults layerss,
+  c02_history_guard h n0 R D rk S0 fs defaults layerss = true ->
+  (copy_fuel n0 R D <= fuel)%nat ->
+  let evs := map (mk_event []) layerss in
+  exists st1 d,
+    deep_copy true fuel h n0 (HPtr (Some defaults)) = Done (st1, HPtr (Some d)) /\
+    ((copy_fuel (c_next st1) R D <= fuel)%nat ->
+     exists H N vs, config_h fuel fs h n0 defaults evs = Done ((H, N), d, vs) /\
+       (forall u v a, In u vs -> In v vs -> u <> v ->
+          reach H [(RCell, v_root u)] a -> reach H [(RCell, v_root v)] a -> False) /\
+       (forall v x a, In v vs ->
+          (x = defaults \/ x = d \/ exists e, In e evs /\ In x (ev_layers e)) ->
+          reach H [(RCell, v_root v)] a -> reach H [(RCell, x)] a -> False) /\
+       (forall a o, hget h a = Some o -> hget H a = Some o)).
+Proof. exact versions_total_l. Qed.
+
 Print Assumptions compose_fresh.
 Print Assumptions compose_inputs_unchanged.
 Print Assumptions compose_h_total.
 Print Assumptions compose_snapshot.
 Print Assumptions compose_deterministic.
 Print Assumptions versions_pairwise_disjoint.
+Print Assumptions versions_total.
